@@ -67,6 +67,7 @@ type Opts struct {
 	Env   []string // extra environment
 	Dir   string
 	Stdin []byte // only with NoTTY
+	ExtraFiles []*os.File // become fd 3, 4, ... of the program
 }
 
 // Start runs bin with args.
@@ -75,6 +76,7 @@ func Start(bin string, args []string, o Opts) (*Proc, error) {
 	cmd := exec.Command(bin, args...)
 	cmd.Dir = o.Dir
 	cmd.Env = append(os.Environ(), o.Env...)
+	cmd.ExtraFiles = o.ExtraFiles
 	p.Cmd = cmd
 	if o.NoTTY {
 		cmd.Stdin = bytes.NewReader(o.Stdin)
